@@ -115,12 +115,15 @@ def benign_variants(prop):
     /verif/benign/<PROP>-R<n>/): the check must stay silent on them."""
     import glob
     out = []
-    for mp in sorted(glob.glob(os.path.join(VERIF, "benign", prop + "-*", "meta.json"))):
+    for mp in sorted(glob.glob(os.path.join(VERIF, "benign", "*", "meta.json"))):
         try:
             m = json.load(open(mp))
         except Exception:
             continue
         d = os.path.dirname(mp)
+        # a refactoring written for another property is replayed here too when it once alarmed this check
+        if not os.path.basename(d).startswith(prop + "-") and prop not in m.get("also_check", []):
+            continue
         if m.get("expected_alarm"):
             continue  # documented limitation: see meta.json
         out.append({"name": "benign-" + os.path.basename(d), "kind": "benign", "patch": os.path.relpath(os.path.join(d, "patch.diff"), VERIF), "why": m.get("why_equivalent", "")[:200]})
